@@ -223,8 +223,9 @@ def run_case(ctx, case):
         ctx.observe("mesh_from_mpas_source_padding_" + info["dial"]["padding"])
         sig = {"supplied": "mpas", "isolated": ft["isolated"], "padding": info["dial"]["padding"]}
     else:
-        g = ux.grid_from_mesh(m, extra=extra, layout=case.get("layout", "C"))
-        sig = {"supplied": bool(extra), "isolated": ft["isolated"], "layout": case.get("layout", "C")}
+        conv = ux.CONVENTIONS[case["sseed"] % len(ux.CONVENTIONS)]
+        g = ux.grid_from_mesh(m, extra=extra, layout=case.get("layout", "C"), convention=conv)
+        sig = {"supplied": bool(extra), "isolated": ft["isolated"], "layout": case.get("layout", "C"), "fill": "standard" if conv[0] == ux.INT_FILL else str(conv[0]), "start_index": conv[1]}
     touched = []
     for name in case.get("touch", []):
         try:
